@@ -6,7 +6,7 @@ from engine import cside
 from engine.checks import c_common, c19
 
 KINDS = ('kwlist', 'call-correspondence', 'info-mapping', 'reject-exception',
-         'reject-clean', 'frame', 'accept-reachable')
+         'reject-clean', 'frame', 'accept-reachable', 'copy-granularity')
 
 
 def run(report, tier, seed):
